@@ -441,7 +441,7 @@ def build_no_op_expand(p, osh, aux):
     h = Host()
     xs = list(p["as"])
     h.inp("x", "f32", np.arange(1, int(np.prod(xs)) + 1, dtype=np.float32).reshape(xs), shape=from_decl(aux["xd"]))
-    h.operand("s", p["skind"], "i64", np.array(p["es"], dtype=np.int64), alt=np.array([2] + list(p["es"]), dtype=np.int64))
+    h.operand("s", p["skind"], "i64", np.array(p["es"], dtype=np.int64), alt=np.array([2] + list(osh), dtype=np.int64))
     h.node("Expand", ["x", "s"], ["r"])
     h.node("Identity", ["r"], ["y"])
     h.out("y", "f32", [None] * len(osh))
@@ -655,7 +655,13 @@ def observe(fam, p, lhs, aux):
     befores = None
     try:
         sess = core.ort_session(model)
-        befores = [sess.run(None, f) for f in feeds]
+        befores = [sess.run(None, feeds[0])]
+        for f in feeds[1:]:          # a secondary feed the original cannot run is dropped (counted), not judged
+            try:
+                befores.append(sess.run(None, f))
+            except Exception:  # noqa: BLE001
+                ob["feeds_dropped"] = ob.get("feeds_dropped", 0) + 1
+                feeds = [g for g in feeds if g is not f]
         ob["before"] = [enc(x, SCALE.get(fam, 1)) for x in befores[0]]
     except Exception as e:  # noqa: BLE001
         ob["before_err"] = f"{type(e).__name__}: {str(e)[:200]}"
@@ -836,7 +842,8 @@ def nontrivial(c):
 
 
 def select(ctx, cases):
-    """quick tier: every tuple whose model outcome is a firing / raise / deviation, plus a seeded sample of the rest"""
+    """every tuple TLC printed; only if the quick menus ever grow beyond 30000 tuples: every tuple whose model outcome is
+    a deviation (bounded per family) plus a seeded sample of the others"""
     cases = [c for c in cases if c["lhs"]["dt"] != "ERR"]      # hosts without a defined original meaning are not generated
     fams = os.environ.get("VERIF_C05_FAMILIES")
     if fams:
@@ -847,7 +854,7 @@ def select(ctx, cases):
         cases = list(cases)
         rng.shuffle(cases)
         return cases[: int(mx)], False
-    if not ctx.quick:
+    if not ctx.quick or len(cases) <= 30000:
         return cases, True
     byfam = {}
     for c in cases:
@@ -902,7 +909,6 @@ def run(ctx: core.Ctx):
         "onnxruntime (optimizations disabled) implements the operators involved as the ONNX operator text says; it is the common judge of before and after",
         "'for all inputs' is sampled by one integer-valued test tensor per host that contains every value of -3..3 (elementwise rules), plus a second feed that changes every operand the model does not fix (graph inputs, overridable initializers)",
         "signed zeros, NaN/inf inputs and float rounding (e.g. double rounding in cast_cast) are outside the integer-valued domain of the spec",
-        "quick tier replays every tuple with a deviation (bounded per family) and a seeded sample of the others",
     ]
 
 
